@@ -191,6 +191,65 @@ def check_deep(case, acc):
     acc.tag("deep_chain_cases")
 
 
+def check_overrides(case, acc):
+    """User classes that override documented public members with the same body on both mixins: iter_path_reverse() (here: a
+    virtual root object is reported above the real root) and __str__ (here: it raises; the mixins word their refusals with
+    repr()). Values and exception classes are the same for the two mixins."""
+    from anytree import LightNodeMixin, NodeMixin
+
+    virtual = object()
+
+    def make(base, slotted):
+        body = {"__init__": lambda self, name: setattr(self, "name", name), "__repr__": lambda self: "N(%r)" % (self.name,)}
+        if slotted:
+            body["__slots__"] = ("name",)
+        if case["override"] == "iter_path_reverse":
+            def iter_path_reverse(self):
+                node = self
+                while node is not None:
+                    yield node
+                    node = node.parent
+                yield virtual
+
+            body["iter_path_reverse"] = iter_path_reverse
+        else:
+            def boom(self):
+                raise mut.ReprBoom()
+
+            body["__str__"] = boom
+        return type("Over", (base,), body)
+
+    seen = []
+    for base, slotted in ((NodeMixin, False), (LightNodeMixin, True), (LightNodeMixin, False)):
+        cls = make(base, slotted)
+        r, a, b, c, d = (cls(x) for x in "rabcd")
+        a.parent = r
+        b.parent = a
+        c.parent = r
+        out = []
+
+        def attempt(func):
+            try:
+                return func()
+            except Exception as exc:  # noqa: BLE001 - exception classes are compared
+                return "raised " + type(exc).__name__
+
+        def view():
+            return [(n.name, attempt(lambda: n.depth), attempt(lambda: len(n.path)), attempt(lambda: len(n.ancestors)), attempt(lambda: n.is_root), attempt(lambda: [x.name if x is not virtual else "virtual" for x in n.iter_path_reverse()])) for n in (r, a, b, c, d)]
+
+        out.append(view())
+        for call in (lambda: setattr(b, "parent", c), lambda: setattr(r, "parent", b), lambda: setattr(a, "parent", a), lambda: setattr(r, "children", [a, a]), lambda: setattr(d, "parent", b), lambda: setattr(c, "children", [r])):
+            out.append(attempt(call) or "ok")
+            out.append(view())
+        seen.append(out)
+    for other, what in ((seen[1], "slotted LightNodeMixin"), (seen[2], "LightNodeMixin")):
+        if other != seen[0]:
+            idx = next(i for i, (x, y) in enumerate(zip(seen[0], other)) if x != y)
+            raise Violation("outcome" if isinstance(seen[0][idx], str) else "query:depth", "classes overriding %s: NodeMixin %r, %s %r (step %d)" % (case["override"], seen[0][idx], what, other[idx], idx))
+    acc.nontrivial(True)
+    acc.tag("classes_overriding_public_members")
+
+
 def check_band(case, acc):
     """The downward-recursive attributes on chains whose length is a fraction of the interpreter's recursion limit, well
     away from the depths at which either outcome flips (height costs two frames per level, the iterators one): value or
@@ -220,6 +279,8 @@ def check_band(case, acc):
 def check_case(case, acc):
     if case.get("kind") == "band":
         return check_band(case, acc)
+    if case.get("kind") == "override":
+        return check_overrides(case, acc)
     if case.get("flip_config"):
         # the documentation tells users to switch the consistency checks on from their own code (anytree.config.ASSERTIONS =
         # True after the import): whatever that does, it does the same for both mixins
@@ -324,6 +385,7 @@ def plan(tier, seed):
         tasks.append({"engine": "deep", "route": route})
     for n in (2, 3):
         tasks.append({"engine": "seal", "n": n})
+    tasks.append({"engine": "override"})
     tasks.append({"engine": "band", "factors": [0.3, 0.7] if tier == "quick" else [0.1, 0.2, 0.3, 0.7, 0.8, 1.3]})
     examples = 80 if tier == "quick" else 500
     for i in range(nshards):
@@ -332,6 +394,8 @@ def plan(tier, seed):
 
 
 def run_task(task, acc):
+    if task["engine"] == "override":
+        return acc.run_enum(check_case, ({"kind": "override", "override": o} for o in ("iter_path_reverse", "__str__")))
     if task["engine"] == "band":
         for factor in task["factors"]:
             case = {"kind": "band", "factor": factor}
